@@ -3,7 +3,8 @@
 
    cfg      [w |-> key name or "", r |-> key name or ""]: the write / read signing key the
             server was started with ("" = none configured)
-   op       "upload" | "delete"  (class "w")      "read" | "head"  (class "r")
+   op       "upload" (PUT) | "post" (multipart POST, as operation.Upload does) | "delete"  (class "w")
+            "read" | "head"  (class "r")
    form     how the request names the target file: "plain" /vid,keycookie  "suffix" .._1
             "ext" ...jpg  "path" /vid/keycookie  "pathname" /vid/keycookie/pic.jpg  "lzvid" /0vid,keycookie
    via      how the token travels: "query" ?jwt=  "bearer" Authorization: Bearer  "bearerlower"
@@ -35,7 +36,7 @@ CONSTANTS Configs,     \* set of cfg records explored by the generator / model c
 VARIABLES cfg, present, last, hist
 vars == <<cfg, present, last, hist>>
 
-Class(op) == IF op \in {"upload", "delete"} THEN "w" ELSE "r"
+Class(op) == IF op \in {"upload", "post", "delete"} THEN "w" ELSE "r"
 Hmac == {"HS256", "HS384", "HS512"}
 NamesTarget(claim) == claim \in {"same", "samesuffix", "lzvid", "upper"}
 
@@ -58,7 +59,7 @@ Op(op, form, via, tok, res) ==
   /\ UNCHANGED cfg
 
 (* ---------------- generator / model-checking view ---------------- *)
-Ops == {"upload", "delete", "read", "head"}
+Ops == {"upload", "post", "delete", "read", "head"}
 Keys == {"k1", "k2", "k3"}
 BaseKey(c, op) == IF c[Class(op)] # "" THEN c[Class(op)] ELSE "k1"
 Valid(k) == [shape |-> "jwt", alg |-> "HS256", key |-> k, exp |-> "future", nbf |-> "absent", claim |-> "same"]
@@ -86,7 +87,7 @@ GenNext ==
          /\ last' = [op |-> op, tok |-> tok, allowed |-> Allowed(cfg, op, tok)]
          /\ hist' = Append(hist, [ev |-> "op", op |-> op, form |-> form, via |-> via, tok |-> tok])
          /\ present' = IF ~Allowed(cfg, op, tok) THEN present
-                       ELSE IF op = "upload" /\ form # "suffix" THEN TRUE
+                       ELSE IF op \in {"upload", "post"} /\ form # "suffix" THEN TRUE
                        ELSE IF op = "delete" /\ form # "suffix" THEN FALSE ELSE present
   /\ UNCHANGED cfg
 Spec == Init /\ [][GenNext]_vars
@@ -104,7 +105,7 @@ ProofNeeded == last # None \/ \A op \in Ops : cfg[Class(op)] # "" => \A t \in To
                                         /\ t.claim \notin {"otherkey", "othercookie", "othervid", "vidonly", "empty", "nofid"}
 (* a token signed with the read key never authorises a write (and vice versa) when the keys differ *)
 KeySeparation == last # None \/ ((cfg.w # "" /\ cfg.r # "" /\ cfg.w # cfg.r) =>
-                   (/\ \A op \in {"upload", "delete"} : \A t \in Tokens(cfg, op) : t.key = cfg.r => ~Allowed(cfg, op, t)
+                   (/\ \A op \in {"upload", "post", "delete"} : \A t \in Tokens(cfg, op) : t.key = cfg.r => ~Allowed(cfg, op, t)
                     /\ \A op \in {"read", "head"} : \A t \in Tokens(cfg, op) : t.key = cfg.w => ~Allowed(cfg, op, t)))
 (* the valid token is allowed (the table is not vacuous) *)
 ValidAllowed == last # None \/ \A op \in Ops : Allowed(cfg, op, Valid(BaseKey(cfg, op)))
